@@ -93,6 +93,10 @@ def gen_opts(rng):
         o['reissue'] = rng.choice(ODD_REISSUES)
     if rng.random() < 0.15:
         o['soe'] = rng.choice([0, 1, None, '', 'no', 0.0, 2.5, 7])
+    # how the factory is called: some of the leading arguments POSITIONALLY, in the documented order (9..11 reach
+    # set_on_exception / timeout / reissue_time, 12 / 13 hashalg / salt)
+    if rng.random() < 0.3:
+        o['npos'] = rng.choice([2, 3, 8, 9, 9, 10, 10, 11, 11, 11, 12, 13])
     if rng.random() < 0.3:
         o['cookie_name'] = rng.choice(['session', 'sid', 'my.session'])
         o['max_age'] = rng.choice([None, None, 3600, 3600, 10, 10, 0, True, 10.75, '3600', '10', 'soon'])
@@ -207,6 +211,8 @@ def gen_chain(rng):
         if i == 0 and rng.random() < 0.8 and not any(o['op'] in MUT_OPS for o in ops):
             ops.append({'op': 'setitem', 'k': rng.choice(KEYS), 'v': gen_value(rng), 't': tt})
         reqs.append({'src': gen_src(rng, i, malformed), 't': t, 'ops': ops, 'exc': rng.random() < 0.15})
+        if rng.random() < 0.2:       # other response callbacks of the application, registered before / after
+            reqs[-1]['cbs'] = [rng.choice([0, 1, 2]), rng.choice([0, 1, 3])]
         t = tt
     case = {'opts': opts, 'reqs': reqs}
     if rng.random() < 0.25:
@@ -278,6 +284,8 @@ def valid(case):
         for k in ('timeout', 'reissue', 'max_age', 'soe'):
             if k in o and not _okv(o[k]):
                 return False
+        if 'npos' in o and not (isinstance(o['npos'], int) and not isinstance(o['npos'], bool) and 1 <= o['npos'] <= 13):
+            return False
         if not case['reqs']:
             return False
         if 'router' in case and case['router'] is not True and case['router'] != 'setter':
@@ -305,6 +313,9 @@ def valid(case):
             if s['kind'] == 'trunc' and not isinstance(s['n'], int):
                 return False
             if not _okt(r['t']):
+                return False
+            if 'cbs' in r and not (isinstance(r['cbs'], list) and len(r['cbs']) == 2 and all(
+                    isinstance(x, int) and not isinstance(x, bool) and 0 <= x <= 5 for x in r['cbs'])):
                 return False
             for op in r['ops']:
                 if op['op'] not in OPCODE or not _okt(op['t']):
